@@ -11,13 +11,15 @@ META = dict(
     ],
     assumptions=[
         'belt block cipher = uninterpreted function (stubs/belt_block_uf_e.c or belt_block_uf.c), bash-f = uninterpreted function (stubs/bashf_uf.c), beltPolyMul = uninterpreted function (harness/C09/polymul_uf.c)',
-        'REL profile (NDEBUG); blob.c real with exact-size blobs (BEE2_VERIF_BLOB_EXACT)',
+        'memIsDisjoint2 modelled object-aware (harness/C09/disjoint_model.c): buffers in different objects are disjoint, inside one object the real interval test decides', 'REL profile (NDEBUG); blob.c real with exact-size blobs (BEE2_VERIF_BLOB_EXACT)',
         'argument table transcribed from the \\expect{ERR_...} lines of belt.h, bash.h, botp.h, brng.h (bash.h writes ERR_BAD_PARAM, err.h only defines ERR_BAD_PARAMS: taken as ERR_BAD_PARAMS)',
         'FMT argument checks: beltFMT_keep/Start/StepE/StepD replaced by stubs that assert their documented \\pre lines (harness/C09/fmt_pre.c); counterexamples are replayed on the real belt_fmt.c',
     ],
 )
 
-CORE = ['src/core/mem.c', 'src/core/util.c', 'src/core/u32.c', 'src/core/u64.c', 'src/core/u16.c', 'src/core/word.c', 'src/core/blob.c']
+MEM = ('src/core/mem.c', {'remove': ['memIsDisjoint2']})
+DJ = 'harness/C09/disjoint_model.c'
+CORE = [MEM, 'src/core/util.c', 'src/core/u32.c', 'src/core/u64.c', 'src/core/u16.c', 'src/core/word.c', 'src/core/blob.c']
 B = 'src/crypto/belt/'
 BLOCK = (B + 'belt_block.c', {'remove': ['beltBlockEncr', 'beltBlockEncr2', 'beltBlockEncr3', 'beltBlockDecr', 'beltBlockDecr2', 'beltBlockDecr3']})
 LCL = (B + 'belt_lcl.c', {'remove': ['beltPolyMul', 'beltPolyMul_deep']})
@@ -25,8 +27,8 @@ MODES = [B + f for f in ('belt_ecb.c', 'belt_cbc.c', 'belt_cfb.c', 'belt_ctr.c',
                          'belt_bde.c', 'belt_sde.c', 'belt_krp.c', 'belt_hmac.c', 'belt_hash.c', 'belt_compr.c', 'belt_pbkdf.c')]
 FMT_PRE = (B + 'belt_fmt.c', {'remove': ['beltFMT_keep', 'beltFMTStart', 'beltFMTStepE', 'beltFMTStepD']})
 BELT = CORE + ['src/math/ww.c', LCL, BLOCK] + MODES
-UF = ['stubs/belt_block_uf.c', 'harness/C09/polymul_uf.c']
-UFE = ['stubs/belt_block_uf_e.c', 'harness/C09/polymul_uf.c']
+UF = ['stubs/belt_block_uf.c', 'harness/C09/polymul_uf.c', DJ]
+UFE = ['stubs/belt_block_uf_e.c', 'harness/C09/polymul_uf.c', DJ]
 BASH = ['src/crypto/bash/bash_hash.c']
 BOTP = ['src/crypto/botp.c', 'src/core/dec.c', 'src/core/str.c', 'src/core/tm.c']
 BRNG = ['src/crypto/brng.c']
@@ -52,15 +54,15 @@ def obligations(tier):
                        ['beltECBEncr', 'beltECBDecr', 'beltCBCEncr', 'beltCBCDecr', 'beltCFBEncr', 'beltCFBDecr', 'beltCTR', 'beltMAC', 'beltDWPWrap', 'beltDWPUnwrap',
                         'beltCHEWrap', 'beltCHEUnwrap', 'beltKWPWrap', 'beltKWPUnwrap', 'beltBDEEncr', 'beltBDEDecr', 'beltSDEEncr', 'beltSDEDecr', 'beltKRP', 'beltPBKDF2'],
                        ['belt_block_uf', 'polymul_uf'], A + '%d (function, condition) pairs' % len(ARGS_BELT)))
-    obs.append(args_ob('c09_args_fmt', ARGS_FMT, CORE + [FMT_PRE], ['harness/C09/fmt_pre.c'], ['KC_PRE'], ['beltFMTEncr', 'beltFMTDecr'], ['fmt_pre (low-level FMT = asserted \\pre lines)'],
+    obs.append(args_ob('c09_args_fmt', ARGS_FMT, CORE + [FMT_PRE], ['harness/C09/fmt_pre.c', DJ], ['KC_PRE'], ['beltFMTEncr', 'beltFMTDecr'], ['fmt_pre (low-level FMT = asserted \\pre lines)'],
                        A + 'count < 2, len, count > 600 (ERR_NOT_IMPLEMENTED), iv inside dest'))
     # the suspected defect: mod is never checked. One obligation per (function, side) so that each finding has its own verdict line
     for fn in ('E', 'D'):
         for side, txt in (('MODLO', 'mod in {0, 1}'), ('MODHI', 'all mod in (65536, 2^32)')):
-            obs.append(args_ob('c09_args_fmt%s_%s' % (fn, side.lower()), ['FMT_%s_%s' % (fn, side)], CORE + [FMT_PRE], ['harness/C09/fmt_pre.c'], ['KC_PRE'],
+            obs.append(args_ob('c09_args_fmt%s_%s' % (fn, side.lower()), ['FMT_%s_%s' % (fn, side)], CORE + [FMT_PRE], ['harness/C09/fmt_pre.c', DJ], ['KC_PRE'],
                                ['beltFMT%scr' % ('En' if fn == 'E' else 'De')], ['fmt_pre (low-level FMT = asserted \\pre lines)'],
                                txt + ', count 2..24, len in {16,24,32}, data symbolic', replay='asan'))
-    obs.append(args_ob('c09_args_bash', ['BASH_L'], CORE + BASH, ['stubs/bashf_uf.c'], ['KC_BASH'], ['bashHash'], ['bashf_uf'], A + 'l == 0 || l % 16 != 0 || l > 256'))
+    obs.append(args_ob('c09_args_bash', ['BASH_L'], CORE + BASH, ['stubs/bashf_uf.c', DJ], ['KC_BASH'], ['bashHash'], ['bashf_uf'], A + 'l == 0 || l % 16 != 0 || l > 256'))
     obs.append(args_ob('c09_args_botp', ARGS_BOTP, BELT + BOTP, UFE, ['KC_BLOCK'], ['botpHOTPRand', 'botpHOTPVerify', 'botpTOTPRand', 'botpTOTPVerify'],
                        ['belt_block_uf_e'], A + 'digit outside 6..8 (Rand: argument, Verify: strLen(otp) for all strings of <= 11 characters), t == TIME_ERR', unwind=14))
     # documented buffer-disjointness conditions
